@@ -14,7 +14,7 @@ CLAIMED = {
             "static analysis: dropped-result / dominance / field-effect / type-level checks over MIR", "DESIGN.md §3 C02"),
     "C13": ("Static decision of the structural mechanisms behind the property: the dispatch table (operation name -> implementation, fields from the filter), the per-operation decision tables over the atom 'names equal' compared as functions with the five reference operations, lower-casing of both operands of every name comparison, the forward fold, and Action::filter_headers keeping every header filter admitted by its response-code guard, in stored order, on the list handed to the fold. Decided for all inputs because they are facts about all MIR paths. Also: the chain is built with one action per filter and every action of the fold is applied (R13.4).",
             "static analysis: path-sensitive decision tables extracted from MIR and compared with reference tables", "DESIGN.md §3 C13"),
-    "C17": ("Static sibling cross-check between match_request and trace of every layer: same buckets, same request accessors and trigger predicates, same any-host decision table, same priority sort key, trace on the normalised request, unmatched trace nodes never carry routes (path-sensitive), and the per-request condition memo written by trace holds the result of evaluating that condition (under a proved loop invariant on the matched/executed flags), as in matching. Also: get_trace assembles its answer from the traces alone, computed child traces are attached unmodified, request values and tree look-ups are tested in trace as in matching.",
+    "C17": ("Static sibling cross-check between match_request and trace of every layer: same buckets, same request accessors and trigger predicates, same any-host decision table, same priority sort key, trace on the normalised request, unmatched trace nodes never carry routes (path-sensitive), and the per-request condition memo written by trace holds the result of evaluating that condition (under a proved loop invariant on the matched/executed flags), as in matching. Also: get_trace assembles its answer from the traces alone, computed child traces are attached unmodified, request values and tree look-ups are tested in trace as in matching. Also (round 5): the list the action trace folds over is de-duplicated (a rule traced in several buckets is applied once, like the live pipeline: D26).",
             "static analysis: sibling agreement (callee sets, decision tables) over MIR", "DESIGN.md §3 C17"),
 }
 
